@@ -69,6 +69,8 @@ def g_code(c):
                                          g_kwargs_e(c["kwargs"]), g_code(c["next"]))
     if k == "try":
         return "(Try %s %s)" % (g_code(c["c"]), g_code(c["h"]))
+    if k == "spawn":
+        return "(Spawn %s %s)" % (g_code(c["c"]), g_code(c["next"]))
     if k == "discard":
         return "(Discard %s)" % g_code(c["next"])
     if k == "force":
@@ -175,7 +177,7 @@ def g_case(case, obs):
 
 
 # ---- random programs ------------------------------------------------------------------------------------
-DEFAULT_W = dict(inp=5, out=4, tr=2, discard=0.4, force=0.5, recdata=0.7, playdata=0.4, enable=0.25, prep_discards=0.04,
+DEFAULT_W = dict(spawn=0.35, inp=5, out=4, tr=2, discard=0.4, force=0.5, recdata=0.7, playdata=0.4, enable=0.25, prep_discards=0.04,
                  fault=0.12, interrupt=0.05, raise_=0.2, nested=0.35, unser=0.04, handler=0.25,
                  resolver=0.2, cap=0.4, kwargs=0.4, fallbacks=0.15, missing_opts=0.15, static=0.4, prop=0.08)
 
@@ -272,7 +274,8 @@ def rand_call_args(rng, w, nenv, prop=False):
 def rand_body(rng, w, nenv, depth, budget):
     """Body of an intercepted function: mostly a plain return of one of its arguments or a constant."""
     if depth > 0 and budget[0] > 0 and rng.random() < w["nested"]:
-        return rand_code(rng, w, nenv, depth - 1, budget, maxlen=2)
+        wb = w if w.get("spawn_in_body", True) else dict(w, spawn=0)
+        return rand_code(rng, wb, nenv, depth - 1, budget, maxlen=2)
     r = rng.random()
     if r < w["fault"] * 0.5:
         return {"k": "discard", "next": rand_terminal(rng, w, nenv)}
@@ -285,7 +288,7 @@ def rand_code(rng, w, nenv, depth, budget, maxlen=6):
     """A statement sequence ending in a terminal; nenv = number of values bound so far."""
     n = rng.randrange(0, maxlen + 1)
     stmts = []
-    kinds = ["inp", "out", "tr", "discard", "force", "recdata", "playdata", "enable"]
+    kinds = ["inp", "out", "tr", "discard", "force", "recdata", "playdata", "enable", "spawn"]
     weights = [w[k] for k in kinds]
     cur = nenv
     for _ in range(n):
@@ -318,6 +321,8 @@ def rand_code(rng, w, nenv, depth, budget, maxlen=6):
             stmts.append((k, None))
         elif k == "enable":
             stmts.append(("enable", dict(b=rng.random() < 0.5)))
+        elif k == "spawn":
+            stmts.append(("spawn", dict(c=rand_code(rng, w, cur, depth - 1 if depth > 0 else 0, budget, maxlen=2))))
         elif k == "recdata":
             stmts.append(("recdata", dict(key=rng.choice(USER_KEYS), e=rand_expr(rng, w, cur, set()))))
         else:
@@ -368,7 +373,7 @@ def rand_draws(rng, n=8):
 def walk(c):
     """All code nodes of a program (pre-order)."""
     yield c
-    for key in ("body", "next", "c", "h"):
+    for key in ("body", "c", "h", "next"):
         if key in c and isinstance(c[key], dict):
             for x in walk(c[key]):
                 yield x
@@ -414,7 +419,7 @@ def features_of_code(c):
                 fs.add("out-handler:" + n["cfg"]["handler"])
             if n["body"]["k"] not in ("ret", "raise", "interrupt"):
                 fs.add("nested-body")
-        elif k in ("try", "discard", "force", "recdata", "playdata", "interrupt", "raise", "enable"):
+        elif k in ("try", "discard", "force", "recdata", "playdata", "interrupt", "raise", "enable", "spawn"):
             fs.add("stmt:" + k)
     fs.add("inputs:%s" % (nin if nin < 4 else "4+"))
     fs.add("outputs:%s" % (nout if nout < 4 else "4+"))
@@ -482,6 +487,12 @@ def twin_run(code, env=None):
                     return run(c["h"], env)
             elif k == "playdata":
                 env = env + [{"t": "none"}]
+                c = c["next"]
+            elif k == "spawn":
+                try:
+                    run(c["c"], env)
+                except (_Raise, _Interrupt):
+                    pass
                 c = c["next"]
             else:
                 c = c["next"]
